@@ -201,8 +201,24 @@ def classify(ctx, rep):
                     own = ac['kind'] != 'load'
                     isloop = any(s.inst.block.id == h and any(j.op == 'call' and j.callee in ('nsync_mu_semaphore_p', 'nsync_mu_semaphore_p_with_deadline', 'nsync_sem_wait_with_cancel_')
                                                               for b in body for j in fn.bmap[b].insts) for h, body in loops.items())
+                    # a poll elsewhere in the sleeper loop whose outcome lets the thread LEAVE the loop without going back through the
+                    # acquiring poll at the loop header is in the same position as that poll
+                    leaves = False
+                    if own and not isloop:
+                        from ..cfg import paths_avoiding as _pa
+                        SLEEPS = ('nsync_mu_semaphore_p', 'nsync_mu_semaphore_p_with_deadline', 'nsync_sem_wait_with_cancel_')
+                        for h, body in loops.items():
+                            if s.inst.block.id in body and any(j.op == 'call' and j.callee in SLEEPS for b in body for j in fn.bmap[b].insts):
+                                # (another observation of the flag on the way out takes over the role; so does the thread's own store to
+                                # the flag - after removing itself from the queue on a timeout no waker is involved)
+                                others = set(id(j) for j in fn.real_insts() if j is not s.inst and j.op in ('load', 'store') and j.ord != 'na'
+                                             and util.last_field(util.addr_class(mod, fn, j.ops[0 if j.op == 'load' else 1])) == WAITING)
+                                if _pa(fn, s.inst, lambda j: j.block.id not in body, lambda j: id(j) in others) is not None:
+                                    leaves = True
                     if own and isloop:
                         need(key, 'acquire', 'sleeper-loop poll: the loop may be left without a semaphore P, so this load is the only edge from the waker', w)
+                    elif leaves:
+                        need(key, 'acquire', 'a poll of the waiting flag from which the sleeper loop can be left without passing the acquiring poll at the loop header: this load is then the only edge from the waker', w)
                     else:
                         free[key] = 'waiting flag read under the queue spinlock / object mutex, or a re-check that is followed by the sleeper-loop acquire load'
             else:
